@@ -95,7 +95,9 @@ ResAtoms(z) == { T, F, P1(0), P1(1), P1(2), P1(4), <<28, 0>>, <<28, 1>>, <<28, 3
               T \o IFB(T \o IFB(T \o IFB(T))), WCACHE(<<107>>, 2), RCACHE(<<107>>), RCACHE(<<107>>) \o RCACHE(<<107>>),
               <<54, 2>>, <<54, 3>>, <<52, 0, 1>>, <<52, 1, 3>>, <<3, 5, 1>>, <<43, 0>>, <<4, 1>>, POP0,
               DEFN(1, <<29>> \o CALL(1)) \o CALL(1), <<51>>, <<8>>,
-              DEFN(0, TRY(RAISE, CALL(0))) \o CALL(0), DEFN(0, TRY(CALL(0), T)) \o CALL(0), DEFN(0, T \o IFB(CALL(0))) \o CALL(0) }
+              DEFN(0, TRY(RAISE, CALL(0))) \o CALL(0), DEFN(0, TRY(CALL(0), T)) \o CALL(0), DEFN(0, T \o IFB(CALL(0))) \o CALL(0),
+              \* operand size bytes with the top bit set: the read must fail, never move the pointer backwards
+              <<49, 254>>, <<50, 254>>, <<50, 128>>, <<3, 255>>, <<10, 254>>, <<17, 255>>, <<64, 128>>, <<9, 254>> }
 RECURSIVE Progs(_, _)
 Progs(A, n) == IF n = 0 THEN {<<>>} ELSE LET R == Progs(A, n - 1) IN R \cup Cat(R, A)
 LimTriples == {<<a, b, c>> : a \in {1, 2, 3}, b \in {1, 2, 4}, c \in {1, 2, 3}}
